@@ -37,6 +37,7 @@ class Binding:
         return Sess(c, metaset=cfgi // 3, keyset=cfgi // 5)
 
     MUTATING = ('IA_Call', 'IA_CallBadAppend', 'TR_Call', 'SetItem', 'M_Call', 'Delete')
+    CTX = ('EnterCtx', 'ExitCtx')
 
     def before(self, sess, m):
         return disk.snapshot(sess.path)
@@ -44,7 +45,13 @@ class Binding:
     def compare(self, p, exp, obs, obs_out, sess=None, pre=None, macro=None, src=None):
         if p == 'C11':
             mm = []
-            if src['mode'] == 'r' and src.get('mmode', 'r') == 'r' and macro.name in self.MUTATING:
+            if (src.get('cx') or {}).get('on') and macro.name in self.MUTATING:
+                # inside an open context: what the spec (= the documented behaviour of the open map) says
+                if (exp['out'] == 'ok') != (obs_out == 'ok'):
+                    mm.append(('out inside a context', exp['out'], obs_out))
+                if obs['rows'] != tuple(exp['rows']):
+                    mm.append(('disk rows inside a context', exp['rows'], obs['rows']))
+            elif src['mode'] == 'r' and src.get('mmode', 'r') == 'r' and macro.name in self.MUTATING:
                 post = disk.snapshot(sess.path)
                 df = disk.snapdiff(pre, post)
                 if obs_out == 'ok':
@@ -66,7 +73,7 @@ class Binding:
         return am.compare(p, exp, obs, obs_out, sess=sess, strict_out=(macro.name == 'M_Call'))
 
 
-def edge_class(m, src):
+def _edge_class(m, src):
     """coarse class of a macro-edge, used in violation signatures"""
     if m.name == 'IA_Call':
         cs, f, via = m.args
@@ -87,6 +94,12 @@ def edge_class(m, src):
         present = am._asmap(src['refmeta']).get(m.args[1], 0) != 0
         return 'meta:%s:file=%s:keypresent=%s:mode=%s' % (kd, has, present, src['mode'])
     return '%s:start=%s:mode=%s' % (m.name, 'empty' if len(src['ref']) == 0 else 'nonempty', src['mode'])
+
+
+def edge_class(m, src):
+    c = _edge_class(m, src)
+    cx = src.get('cx') or {}
+    return c + (':inctx(%s)' % cx.get('mode') if cx.get('on') else '')
 
 
 def report(run, prop, mg, macros, results, kind):
@@ -162,11 +175,27 @@ def run_family(run, prop, tier, seed, family):
         over = dict(Ops=['append', 'truncate'], Faults=True, MaxRows=3, InitLens=[0, 1], TruncArgs=[0, 1, -1],
                     MaxChunks=2, MaxChunkLen=2)
         invs = ['WellFormedArray', 'Model_Array', 'AppendKeepsPrefix', 'FailedAppendExact', 'Readme_Current', 'TypeOK']
+    elif family == 'ctx':
+        # operations inside open_array() contexts / with a suspended iterchunks generator holding the map
+        over = dict(Ops=['append', 'truncate', 'setitem', 'mode', 'reopen', 'ctx'], InitModes=['r+', 'r'], MaxRows=3,
+                    InitLens=[0, 1], TruncArgs=[0, 1, -1], SetIdx=[-1, 0, 2], MaxChunks=1, MaxChunkLen=2)
+        invs = ['WellFormedArray', 'Model_Array', 'AppendKeepsPrefix', 'Readme_Current', 'CtxOK', 'TypeOK']
+        # the deviation must be real in the model: with contexts, ReadOnlyAlways does not hold
+        mod, text, cfg = am.instance('%s_ctx_dev' % prop, [], ('ReadOnlyAlways',), **over)
+        wd = tlc.workdir()
+        with open(__import__('os').path.join(wd, mod + '.tla'), 'w') as f:
+            f.write(text)
+        rd = tlc.run(mod, cfg, wd=wd, workers=8, timeout=600)
+        if rd.errors or not rd.violation:
+            raise Machinery('Array.tla: ReadOnlyAlways is not violated with contexts - the write-through-open-map '
+                            'behaviour is not in the model any more')
+        run.cov.setdefault('expected_model_violations', []).append('ReadOnlyAlways with "ctx" in Ops (WriteThroughOpenMap)')
     r, g = am.run_instance('%s_%s' % (prop, family), invariants=invs, properties=('ReadOnly',), **over)
     need = {'data': ['IA_Call', 'IA_Write', 'IA_EmptyWrite', 'TR_OsTruncate', 'SetItem', 'UL_JsonWrite', 'UL_ReadmeWrite'],
             'meta': ['M_Call', 'M_Write', 'M_Unlink', 'RM_Write', 'M_Remove'],
             'fault': ['IA_Call', 'IA_CallBadAppend', 'IA_EmptyRecover', 'IA_RecStart', 'IA_RecTruncate', 'IA_Write',
-                      'IA_EmptyWrite']}[family]
+                      'IA_EmptyWrite'],
+            'ctx': ['EnterCtx', 'ExitCtx', 'IA_Write', 'IA_EmptyWrite', 'SetItem', 'SetMode', 'TR_OsTruncate']}[family]
     tlc.check_coverage(r, need, 'MC_%s_%s' % (prop, family))
     run.tlc('Array_%s' % family, r)
     mg = walk.MacroGraph(g, am.quiescent)
